@@ -220,8 +220,10 @@ func createRequestFormParam(doc *v3.Document, param definitions.FuncParam, opera
 	}
 	// Create a new schema for the form parameter
 	propertySchemaRef := InterfaceToSchemaV3(doc, param.TypeMeta.Name)
-	// Add the validation to the schema
-	BuildSchemaValidationV31(propertySchemaRef.Schema(), param.Validator, param.TypeMeta.Name)
+	// Add the validation to the schema (a reference to a component has no schema of its own to validate)
+	if propertySchemaRef.Schema() != nil {
+		BuildSchemaValidationV31(propertySchemaRef.Schema(), param.Validator, param.TypeMeta.Name)
+	}
 	// Set the description on the property schema itself
 	if propertySchemaRef.Schema() != nil {
 		propertySchemaRef.Schema().Description = param.Description
